@@ -157,6 +157,12 @@ func poolConfigs(prop string, thorough bool) (cfgs []poolCfg, depth int) {
 			r.A.MaxSC = int(n) + 2
 			add(r)
 		}
+		// resolver errors and resolver updates interleaved with the reports: they must not perturb the
+		// published pair either (the invariant is stated for every published state)
+		re := poolCfg{Name: "C04 pool=2 resolver-events", Min: 2, Max: 2, WM: 100, Setup: []string{"resolve(a1)"}, Depth: 5}
+		re.A = alphabet{Resolve: []string{"a2"}, ResErr: true, States: "full", Cmds: []string{"plain"}, Gens: []string{"L"},
+			Ctx: []string{"g"}, Done: []string{"ok"}, MaxOpen: 1, MaxSC: 3}
+		add(re)
 	case "C05", "C06":
 		depth = 4
 		if thorough {
@@ -331,6 +337,12 @@ func poolConfigs(prop string, thorough bool) (cfgs []poolCfg, depth int) {
 			r.Depth = 4
 			add(r)
 		}
+		// non-initial root: the old connection of a refresh was shut down before the replacement became
+		// READY; the readmitted channel must be back in the rotation
+		sr := poolCfg{Name: "C09 pool=2 root=shutdown-while-refreshing", Min: 2, Max: 2, WM: 100, RR: true, RefCalls: 1, RefMs: 1, Depth: 4,
+			Setup: append(readyPool(2), "pick(plain,,L,g,d1)", "adv(2)", "done(0,cde)", "state(0,SHUTDOWN)", "state(2,CONNECTING)", "state(2,READY)")}
+		sr.A = alphabet{States: "basic", Cmds: []string{"bind", "plain"}, Gens: []string{"L"}, Ctx: []string{"g"}, Done: []string{"ok"}, MaxOpen: 3, MaxSC: 4}
+		add(sr)
 		g := poolCfg{Name: "C09 growth min=2 max=3 wm=1", Min: 2, Max: 3, WM: 1, RR: true, Setup: readyPool(2)}
 		g.A = alphabet{States: "basic", Cmds: []string{"bind", "plain"}, Gens: []string{"L"}, Ctx: []string{"g"}, Done: []string{"ok"}, MaxOpen: 3, MaxSC: 3}
 		add(g)
